@@ -72,6 +72,17 @@ CHECKS.update({
             "console entry point run as a subprocess",
             "generated configurations (bands, validation/filling, NaN invalid_disparity, grids, georeferencing, masks)", "3 C19"),
 })
+CHECKS.update({
+    "C08": ("metamorphic monitor over pairs of recorded executions: run(A,B,[a,b]) vs run(B,A,[-b,-a]) compared bit for bit "
+            "(four product pairs), plus the run without the validation step",
+            "random legal pipelines with validation/filling, asymmetric masks, grids on both sides, multiband", "3 C08"),
+    "C09": ("metamorphic monitor over pairs of recorded executions differing only by the interval (nested scalars, grids vs "
+            "hull, constant grids) on the captured cost volumes; containment invariants at the step hooks of end-to-end runs",
+            "all measures x subpix x [cbca]; end-to-end pipelines with refinement, filters, filling", "3 C09"),
+    "C13": ("metamorphic monitor: whole-image run vs crop runs (even/odd offsets, ROI-style coordinates) compared bit for bit "
+            "on the cone-interior pixels; vertical-flip relation",
+            "local pipelines (matching cost, cbca, wta, refinement, median, bilateral, cross-checking), 5 crops per scene", "3 C13"),
+})
 NOTES = {}
 
 def main():
